@@ -129,6 +129,13 @@ def build_start(case):
         for (t, d) in case["const_cols"]:
             if t < T and d < D:
                 data[:, :, t, d] = 7.0
+    lay = case["data_seed"] + F + T               # memory layout / mask form handed to the constructor: a function of the case only
+    data, conf = common.vary_layout(data, lay), common.vary_layout(conf, lay // 4)
+    if lay % 3 == 1 and D > 0:
+        # a masked array whose own mask covers only some of the zero-confidence points: the constructor ORs `confidence == 0` in
+        import numpy.ma as ma
+        zero = np.repeat((conf == 0)[..., None], D, axis=-1)
+        data = ma.masked_array(data, mask=zero & (np.random.RandomState(lay).random_sample(zero.shape) < 0.5))
     return Pose(header, NumPyPoseBody(float(case.get("fps", 24.0)), data, conf))
 
 
@@ -412,11 +419,32 @@ def roundtrip_failure(pose):
         if (isinstance(e, ValueError) and "must be between 0 and 65535" in msg) or type(e).__name__ in ("error", "OverflowError"):
             return None
         return "Pose.write raises %s: %s" % (type(e).__name__, msg[:120])
-    PoseHeaderCache.clear_cache()
+    # read back twice: in a fresh memo state, and after an earlier read of the same bytes whose result the caller then edited in
+    # place (what a session that loads, edits and saves poses does)
+    for state in ("empty", "same"):
+        f = _readback_failure(pose, buf.getvalue(), state)
+        if f is not None:
+            return f if state == "empty" else f + " (after an earlier read of the same bytes whose result was edited in place)"
+    return None
+
+
+def _readback_failure(pose, written, state):
+    from pose_format import Pose
+    import posegen as pg
+    pg.set_memo(state, same_bytes=written)
     try:
-        q = Pose.read(buf.getvalue())
+        q = Pose.read(written)
     except Exception as e:
         return "reading the written bytes raises %s: %s" % (type(e).__name__, str(e)[:120])
+    finally:
+        pg.set_memo("empty")
+    dp = tuple(int(x) for x in (pose.header.dimensions.width, pose.header.dimensions.height, pose.header.dimensions.depth))
+    dq = tuple(int(x) for x in (q.header.dimensions.width, q.header.dimensions.height, q.header.dimensions.depth))
+    if dp != dq:
+        return "header dimensions read back %s, written %s" % (dq, dp)
+    fp, fq = np.float32(pose.body.fps), np.float32(q.body.fps)
+    if not (fp == fq or (np.isnan(fp) and np.isnan(fq))):
+        return "fps read back %r, written %r" % (float(fq), float(fp))
     if data_shape(q) != data_shape(pose):
         return "shape read back %s, written %s" % (data_shape(q), data_shape(pose))
     hp = [(c.name, list(c.points), c.format, [tuple(l) for l in c.limbs]) for c in pose.header.components]
